@@ -49,14 +49,18 @@ func init() {
 	}
 }
 
-func scanObs(s *sio.StringScanner) Ev {
+// scanObs asks the five queries in one of several orders (qo): what one query reports must not depend on which was asked before
+func scanObs(s *sio.StringScanner, qo int) Ev {
 	o := Ev{}
 	o["k"] = s.VerifCursor()
-	o["line"] = s.Line()
-	o["col"] = s.Column()
-	o["peek"] = int(s.Peek())
-	o["pline"] = s.PeekLine()
-	o["pcol"] = s.PeekColumn()
+	q := map[byte]func(){
+		'L': func() { o["line"] = s.Line() }, 'C': func() { o["col"] = s.Column() }, 'P': func() { o["peek"] = int(s.Peek()) },
+		'l': func() { o["pline"] = s.PeekLine() }, 'c': func() { o["pcol"] = s.PeekColumn() },
+	}
+	orders := []string{"LCPlc", "clPLC", "PlcCL", "CcLlP", "lcPCL", "cLCPl"}
+	for _, x := range []byte(orders[((qo%len(orders))+len(orders))%len(orders)]) {
+		q[x]()
+	}
 	o["k2"] = s.VerifCursor()
 	o["line2"] = s.Line()
 	o["col2"] = s.Column()
@@ -65,10 +69,31 @@ func scanObs(s *sio.StringScanner) Ev {
 
 func execC11(seg []Ev) []Ev {
 	var s *sio.StringScanner
+	other := sio.NewStringScanner("") // a second scanner that stays alive; "switch" exchanges the two
 	out := make([]Ev, 0, len(seg))
-	for _, in := range seg {
+	for i, in := range seg {
 		e := Ev{"op": in["op"]}
+		qo := 0
+		if q, ok := in["qo"]; ok {
+			qo = toInt(q)
+		} else if len(seg) > 12 {
+			qo = i // long histories rotate the order of the queries
+		}
+		e["qo"] = qo
+		e["first"] = i == 0 // a segment starts with two new scanners
 		switch toStr(in["op"]) {
+		case "switch":
+			s, other = other, s
+		case "newbytes": // a text given as bytes, possibly not well-formed UTF-8: its characters are those the host's conversion yields
+			bs := toList(in["bytes"])
+			b := make([]byte, len(bs))
+			for j, x := range bs {
+				b[j] = byte(toInt(x))
+			}
+			e["op"], e["bytes"] = "new", bs
+			e["frombytes"] = true
+			e["content"] = cpsR([]rune(string(b)))
+			s = sio.NewStringScanner(string(b))
 		case "new":
 			r := toRunes(in["content"])
 			e["content"] = cpsR(r)
@@ -86,7 +111,7 @@ func execC11(seg []Ev) []Ev {
 		default:
 			panic("C11: unknown op")
 		}
-		e["obs"] = scanObs(s)
+		e["obs"] = scanObs(s, qo)
 		out = append(out, e)
 	}
 	return out
@@ -277,6 +302,76 @@ func genC11(g *Gen) {
 				g.Run("multi-unread by large counts", seg)
 			}
 		}
+	}
+	// two scanners alive at the same time, used alternately
+	r2 := g.Rand()
+	texts := [][]rune{[]rune("ab\ncd\r\nef"), []rune("xyz"), []rune("\n\n\n\n\n\n\n\n\n\n\n\n"), []rune("q"), {}, []rune("longer text\rwith\n\rbreaks and more"), []rune("été\n日本")}
+	for i := 0; i < g.Pick(300, 5000); i++ {
+		seg := []Ev{{"op": "new", "content": cpsR(texts[r2.Intn(len(texts))])}}
+		for j := 0; j < 4+r2.Intn(30); j++ {
+			switch x := r2.Intn(12); {
+			case x < 5:
+				seg = append(seg, Ev{"op": "read"})
+			case x < 7:
+				seg = append(seg, Ev{"op": "unread"})
+			case x < 8:
+				seg = append(seg, Ev{"op": "unreadmany", "n": r2.Intn(5)})
+			case x < 10:
+				seg = append(seg, Ev{"op": "switch"})
+			case x < 11:
+				seg = append(seg, Ev{"op": "new", "content": cpsR(texts[r2.Intn(len(texts))])})
+			default:
+				seg = append(seg, Ev{"op": "reset"})
+			}
+		}
+		g.Run("two scanners alive at once", seg)
+	}
+	for _, a := range texts {
+		for _, b := range texts {
+			seg := []Ev{{"op": "new", "content": cpsR(a)}, {"op": "read"}, {"op": "read"}, {"op": "switch"}, {"op": "new", "content": cpsR(b)}, {"op": "read"}, {"op": "switch"}}
+			for j := 0; j <= len(a); j++ {
+				seg = append(seg, Ev{"op": "read"})
+			}
+			seg = append(seg, Ev{"op": "switch"}, Ev{"op": "read"}, Ev{"op": "unread"}, Ev{"op": "switch"}, Ev{"op": "unreadmany", "n": 3}, Ev{"op": "read"})
+			g.Run("two scanners alive at once", seg)
+		}
+	}
+	// every order of the five queries after stepping back over line breaks
+	for qo := 0; qo < 6; qo++ {
+		for _, c := range []string{"ab\ncd", "a\r\nb", "a\n\rb", "\n\nab", "ab\r", "x\ny\nz"} {
+			for back := 1; back <= 5; back++ {
+				for _, many := range []bool{true, false} {
+					seg := []Ev{{"op": "new", "content": cps(c), "qo": qo}}
+					for j := 0; j < len([]rune(c)); j++ {
+						seg = append(seg, Ev{"op": "read", "qo": qo})
+					}
+					if many {
+						seg = append(seg, Ev{"op": "unreadmany", "n": back, "qo": qo})
+					} else {
+						for j := 0; j < back; j++ {
+							seg = append(seg, Ev{"op": "unread", "qo": qo})
+						}
+					}
+					seg = append(seg, Ev{"op": "read", "qo": qo}, Ev{"op": "reset", "qo": qo})
+					g.Run("every order of the queries after stepping back", seg)
+				}
+			}
+		}
+	}
+	// texts that are not well-formed UTF-8
+	for _, b := range [][]byte{{0xff}, []byte("ab\x80c"), []byte("caf\xe9\ns"), {0xe2, 0x82}, []byte("a\r\n\xc3"), []byte("\xed\xa0\x80x"), []byte("ok\n"), []byte("\xe9t\xe9 é"), {0xf0, 0x9f, 0x98}, {0xc0, 0x80, '\n', 0xfe}} {
+		bl := make([]any, len(b))
+		for j, x := range b {
+			bl[j] = int(x)
+		}
+		seg := []Ev{{"op": "newbytes", "bytes": bl}}
+		for j := 0; j <= len(b)+1; j++ {
+			seg = append(seg, Ev{"op": "read"})
+		}
+		for j := 0; j <= len(b); j++ {
+			seg = append(seg, Ev{"op": "unread"})
+		}
+		g.Run("texts that are not well-formed UTF-8", seg)
 	}
 	// random walks
 	r := g.Rand()
